@@ -1,7 +1,7 @@
 //! C01 (compiled scripts agree with the reference semantics) and C02 (O0 vs O1 differential).
-use crate::exec::{self, End, Log, Outcome};
-use crate::fastc::{with_fastc, CompileFail};
-use crate::swaygen::{self, Abort, EmitOpts, Gen, GenOpts, Interp, Program, RefOutcome, Val};
+use vcore::exec::{self, End, Log, Outcome};
+use vcore::fastc::{with_fastc, CompileFail};
+use vcore::swaygen::{self, Abort, EmitOpts, Gen, GenOpts, Interp, Program, RefOutcome, Val};
 use proptest::prelude::*;
 use serde_json::{json, Value};
 use std::sync::Mutex;
@@ -51,7 +51,7 @@ fn build_src(prog: Program, src: String, _mask_shifts: bool) -> Result<Built, Pa
         let o1 = catch(|| fc.compile(&src, OptLevel::Opt1));
         (o0, o1)
     });
-    let conv = |r: Result<Result<crate::fastc::Compiled, CompileFail>, PanicInfo>| match r {
+    let conv = |r: Result<Result<vcore::fastc::Compiled, CompileFail>, PanicInfo>| match r {
         Ok(Ok(c)) => Ok(c.bytecode),
         Ok(Err(f)) => Err(f),
         Err(p) => Err(CompileFail { errors: vec![format!("PANIC at {}: {}", p.location, p.message)], internal: true, stage: "panic" }),
@@ -326,7 +326,7 @@ pub fn run(ctx: &Ctx) {
     if rej * 5 > rep.evaluations.load(std::sync::atomic::Ordering::Relaxed).max(1) {
         rep.inconclusive(&format!("{rej} generated programs were rejected by the compiler or the harness (generator bug)"));
     }
-    crate::fastc::drop_thread_fastc();
+    vcore::fastc::drop_thread_fastc();
     rep.finish();
 }
 
@@ -434,7 +434,7 @@ pub fn run_c17(ctx: &Ctx) {
         let src: Vec<String> = [false, true].iter().filter_map(|nt| build(&tape, false, *nt).ok().map(|b| b.src)).collect();
         rep.violation(Violation { signature: sig, summary, replay: json!({"tape": tape, "src_variants": src}) });
     }
-    crate::fastc::drop_thread_fastc();
+    vcore::fastc::drop_thread_fastc();
     rep.finish();
 }
 
